@@ -54,5 +54,6 @@ func handleCEA(sm *StateMachine, errc chan error) diam.HandlerFunc {
 	}
 }
 
-// refusedKey marks, in its context, a connection whose CEA was a refusal.
+// refusedKey marks, in its context, a connection whose CEA was a refusal,
+// or whose handshake the client gave up waiting for.
 type refusedKey struct{}
